@@ -2358,6 +2358,9 @@ func (p *Parser) gotStmtPipe(s *Stmt, binCmd bool) *Stmt {
 func (p *Parser) subshell(s *Stmt) {
 	sub := &Subshell{Lparen: p.pos}
 	old := p.preNested(subCmd)
+	// Unlike in a command substitution, a newline inside a subshell
+	// does start the bodies of the here-documents pending outside of it.
+	p.buriedHdocs = old.buriedHdocs
 	p.next()
 	sub.Stmts, sub.Last = p.followStmts("(", sub.Lparen)
 	p.postNested(old)
@@ -2621,10 +2624,12 @@ func (p *Parser) testClause(s *Stmt) {
 		p.followErrExp(tc.Left, dblLeftBrack)
 	}
 	tc.Right = p.pos
+	// Leave the nested state before reading the token after "]]"; if it is
+	// a newline, it must start the bodies of any pending here-documents.
+	p.postNested(old)
 	if _, ok := p.gotRsrv("]]"); !ok {
 		p.matchingErr(tc.Left, dblLeftBrack, dblRightBrack)
 	}
-	p.postNested(old)
 	s.Cmd = tc
 }
 
@@ -2824,6 +2829,9 @@ func (p *Parser) coprocClause(s *Stmt) {
 func (p *Parser) letClause(s *Stmt) {
 	lc := &LetClause{Let: p.pos}
 	old := p.preNested(arithmExprLet)
+	// The newline ending the clause is read in this state, and it must
+	// start the bodies of any pending here-documents.
+	p.buriedHdocs = old.buriedHdocs
 	p.next()
 	for !p.stopToken() && !p.peekRedir() {
 		x := p.arithmExpr(true)
